@@ -40,7 +40,8 @@ ASSUMPTIONS = [
     "path_join_safe(root, None) raises AttributeError - counted in the histogram, not part of the property",
 ]
 RULE = ("(cwd, root, name) triples: names = exhaustive sequences over the adversarial segment alphabet joined by "
-        "'/', '\\\\' or '//' under absolute / drive-like prefixes, random mixed-separator sequences of up to 6 segments, "
+        "'/', '\\\\' or '//' under absolute / drive-like prefixes, random mixed-separator sequences of up to 6 segments, control "
+        "characters (LF, CR, NUL, TAB, VT, FF, NEL, U+2028/9) inside segments before and after dot segments, "
         "random NUL-free unicode strings, and the captures the real Router yields for random URLs on "
         "'/static/:path*' and '/:path*'; roots from a fixed adversarial list + generated; cwd = real chdir "
         "directories and patched os.getcwd values; every triple runs fixsep/split/join/splitroot/normpath/abspath/"
@@ -408,6 +409,16 @@ def _run(ctx, impl, rng, real_dirs):
         triples.append(("segments", rng.choice(PATCHED_CWDS), rand_root(rng), rand_segname(rng)))
     for _ in range(ctx.scale(800, 40000)):
         triples.append(("unicode", rng.choice(PATCHED_CWDS), rand_root(rng), rand_unicode(rng)))
+
+    # 3a. control characters inside a segment that precedes / follows dot segments (line feed, carriage return, NUL, tab,
+    #     unicode line separators): a name is one string, whatever it contains
+    ctrl = ["\n", "\r", "\r\n", "\t", "\x00", "\x0b", "\x0c", "\x1c", "\x85", "\u2028", "\u2029"]
+    tails = ["..", "../..", "../../..", "../../../etc/passwd", ".", "./x", "x/..", "x/../..", "..\\..", ""]
+    for c in ctrl:
+        for head in ["a" + c + "b", c, "a" + c, c + "b", "a" + c + "/b", "..", "x"]:
+            for tail in tails:
+                for name in (head + "/" + tail, head + tail, tail + "/" + head, head + "\\" + tail, c + tail + c):
+                    triples.append(("control-chars", rng.choice(PATCHED_CWDS), rng.choice(ROOTS), name))
 
     # 3b. long names (hundreds of segments): nothing in the function depends on length
     for _ in range(ctx.scale(6, 60)):
